@@ -69,9 +69,10 @@ def generate(rng, tier):
                     continue
                 if len(t) * 4 ** sum(1 for k in seq if k == 1) > MAX_TRIA:
                     continue          # the in-Coq evaluation of orient_ is quadratic: keep refined meshes small
-                if name.startswith("octa") and 4 in seq and 0 in seq[seq.index(4):]:
+                if name.startswith("octa") and 4 in seq and (0 in seq[seq.index(4):] or 5 in seq[seq.index(4):]):
                     # smoothing maps opposite vertices of an octahedron (same neighbours) to the same point: the mesh becomes flat
-                    # and the sign of its volume, which a later orient_ looks at, is rounding noise
+                    # and the sign of its volume, which a later orient_ looks at, is rounding noise; so are the vertex normals
+                    # (sums of cancelling cross products) along which a later normal_offset_ moves the vertices
                     continue
                 cases.append({"kind": "tria_hist", "family": name, "v": v, "t": t, "ops": [BASE_OPS[k] for k in seq]})
         for _ in range(6 if tier == "quick" else 60):
@@ -84,7 +85,7 @@ def generate(rng, tier):
                     if nref + op[1] > 2 or len(t) * 4 ** (nref + op[1]) > MAX_TRIA:
                         continue
                     nref += op[1]
-                if name.startswith("octa") and op[0] == "orient_" and any(o[0] == "smooth_" for o in ops):
+                if name.startswith("octa") and op[0] in ("orient_", "normal_offset_") and any(o[0] == "smooth_" for o in ops):
                     continue          # flat after smoothing, see above
                 ops.append(op)
             cases.append({"kind": "tria_hist", "family": name + "_random", "v": v, "t": t, "ops": ops})
